@@ -1,4 +1,5 @@
 import LcModel.Sync.LemmasFork
+import LcModel.Meta.Lemmas
 /-!
 # C08 — a crash at any storage write loses no script activity
 
@@ -10,8 +11,9 @@ after the restart against the model after the same prefix of writes.
 The theorems are about the filter-sync state (scripts, min filtered number, matched-blocks
 records, index), including the fork rollback of `commit_prove_state` (`Sync.forkWrites`: the chain
 itself changes there, the invariant is carried from the old chain to the new one).  The tip
-update, check point finalization and first-run initialisation are exercised by the crash
-enumeration of the check only (see DESIGN.md).
+update, check point finalization and first-run initialisation are modelled in the `Meta` layer
+(section "the entries every start reads" below): no write boundary of theirs leaves a store the
+client cannot open.
 -/
 namespace C08
 open Sync
@@ -115,6 +117,76 @@ example :
     have h1 : (b == 12) = false := by simp; omega
     have h2 : (b == 11) = false := by simp; omega
     rw [h1, h2]
+
+/-! ## the entries every start reads (Meta layer) -/
+section startup
+open Meta
+
+/-- **no state from which the client aborts on every start**: the genesis entry, the last state,
+the remembered headers, the min filtered number, the max check point index and every check point
+up to it are present after every PREFIX of the writes of a tip update (`update_last_state`: two
+puts), of the storage part of a check point finalization (the batch of new check points, then the
+index) and of a restart (`init_genesis_block` writes nothing when the genesis entry exists) -/
+theorem startup_entries_survive_every_write (s : S) (op : Meta.Op) (j : Nat) (h : Openable s) :
+    Openable (Meta.step s op j) :=
+  openable_step h op j
+
+/-- … and along every history of those operations cut at any write boundary -/
+theorem startup_entries_survive_every_history (hist : List (Meta.Op × Option Nat)) (s : S)
+    (h : Openable s) : Openable (Meta.run s hist) :=
+  openable_run hist s h
+
+/-- the first start writes ONE batch: whatever it dies in front of, the store is still empty (the
+next start initialises it) or complete -/
+theorem first_start_is_atomic (g c j : Nat) :
+    Meta.step Meta.empty (.init g c) j = Meta.empty ∨ Openable (Meta.step Meta.empty (.init g c) j) :=
+  first_start g c j
+
+/-- the initialisation as it was before 0751088 wrote the genesis entry first and the other
+entries one by one: after a crash behind the first write the store cannot be opened, and no later
+start repairs it (the genesis entry is there, `init_genesis_block` writes nothing) -/
+theorem old_init_order_bricks :
+    let s := Meta.applyWs Meta.empty [.putGenesis 7]
+    ¬ Openable s ∧ Meta.opWrites s (.init 7 9) = [] := by
+  intro s
+  refine ⟨fun h => ?_, by decide⟩
+  have := h.lastState
+  revert this
+  decide
+
+/-- the order `index first, check points second` (a seeded change of the fifth round): after a
+crash between the two writes the check point at the stored index is missing:
+`get_last_check_point` aborts at every start -/
+theorem index_before_check_points_bricks :
+    let s : S := ⟨some 7, some (0, 7), some [], some 0, [(0, 9)], some 0⟩
+    Openable s ∧
+    let s' := Meta.applyWs s ([W.putMaxCp 2, W.putCps 1 [4, 5]].take 1)
+    ¬ Openable s' := by
+  intro s
+  constructor
+  · refine ⟨rfl, rfl, rfl, rfl, rfl, ?_⟩
+    intro m hm i hi
+    have : m = 0 := by
+      have : some 0 = some m := hm
+      exact (Option.some.inj this).symm
+    subst this
+    have : i = 0 := by omega
+    subst this
+    decide
+  · intro s' h
+    have := h.dense 2 rfl 2 (Nat.le_refl _)
+    revert this
+    decide
+
+/-- non-vacuity: a finalization of two check points cut after its first write -/
+example :
+    let s : S := ⟨some 7, some (0, 7), some [], some 0, [(0, 9)], some 0⟩
+    (Meta.opWrites s (.fin [4, 5])).length = 2 ∧
+    (Meta.step s (.fin [4, 5]) 1).maxCp = some 0 ∧ Meta.cpAt (Meta.step s (.fin [4, 5]) 1) 2 = some 5 ∧
+    (Meta.step s (.fin [4, 5]) 2).maxCp = some 2 := by
+  decide
+
+end startup
 
 /-! ## the write orders before the repairs lose activity -/
 
